@@ -19,6 +19,9 @@ Space
   <tmp>/work/file_sb_backup/ and <tmp>/work/file_sb2/ really exist (names that have the base name as a string
   prefix); the SIBLING_LAYOUTS link to them relatively, absolutely and through a chain.  The check's own
   containment test is component-wise (os.path.commonpath).
+  Long chains lnk -> k2 -> ... -> k<n> -> end (n around 8, 16, 32, 40, 64, 128, 256; end = directory, file,
+  '../..', '/etc') and link loops exercise any bound on the number of links a resolver follows; every call
+  runs under a recursion budget and a wall-clock budget (a hang is reported, a RecursionError is a refusal).
 
 Oracle
   the returned host path, as the host OS would resolve it (realpath; for follow_link=False the final
@@ -28,6 +31,8 @@ Oracle
 import itertools
 import os
 import shutil
+import signal
+import sys
 import tempfile
 
 from mc.runner import violation
@@ -80,6 +85,49 @@ LAYOUTS = [
 N_LAYOUTS_QUICK = 6
 SIBLING_LAYOUTS = [10, 11, 12, 13]
 SIBLINGS = ("file_sb_backup", "file_sb2")
+
+# Long link chains (both tiers): lnk -> k2 -> k3 -> ... -> k<n> -> end, n links in all, created in file_sb/ and in
+# file_sb/a/.  Any numeric bound inside a resolver is a boundary, so the lengths sit around the usual limits
+# (8, 16, 32, MAXSYMLINKS = 40, 64, 128, 256).  Ends: a directory, a regular file, a relative target with enough '..'
+# to leave the base, an absolute target.  Loops (k<n> -> lnk) must be refused or stay inside, never escape, never hang.
+CHAIN_LENGTHS = [1, 2, 8, 15, 16, 17, 31, 32, 33, 39, 40, 41, 42, 63, 64, 65, 100, 127, 128, 129, 255, 256, 257]
+CHAIN_LENGTHS_QUICK = [1, 2, 8, 16, 32, 39, 40, 41, 42, 64, 100, 128, 256]
+CHAIN_ENDS = ["a", "a/f", "../..", "/etc"]
+LOOP_LENGTHS = [1, 2, 40, 41]
+CALL_BUDGET_S = 20          # wall-clock budget of one call (a hang is a finding, not a stuck check)
+RECURSION_LIMIT = 600       # per-call budget of a recursive resolver: enough for 257 links, a loop ends in RecursionError
+CHAIN_COMPONENTS = ("a", "..", "lnk")      # path lattice used under the chain layouts (the main lattice has the rest)
+
+
+def chain_layout(n, end):
+    names = ["lnk"] + ["k%d" % i for i in range(2, n + 1)]
+    return dict((name, names[i + 1] if i + 1 < len(names) else end) for i, name in enumerate(names))
+
+
+CHAIN_LAYOUTS = {}          # (n, end) -> layout index;  ("loop", n) -> layout index
+for _n in CHAIN_LENGTHS:
+    for _end in CHAIN_ENDS:
+        CHAIN_LAYOUTS[(_n, _end)] = len(LAYOUTS)
+        LAYOUTS.append(("chain of %d links ->%s" % (_n, _end), chain_layout(_n, _end)))
+for _n in LOOP_LENGTHS:
+    CHAIN_LAYOUTS[("loop", _n)] = len(LAYOUTS)
+    LAYOUTS.append(("loop of %d links" % _n, chain_layout(_n, "lnk")))
+
+
+class Hang(BaseException):
+    """Raised by the SIGALRM handler when one call exceeds CALL_BUDGET_S."""
+
+
+def _on_alarm(signum, frame):
+    raise Hang()
+
+
+def guarded(fn, *args, **kwargs):
+    signal.setitimer(signal.ITIMER_REAL, CALL_BUDGET_S)
+    try:
+        return fn(*args, **kwargs)
+    finally:
+        signal.setitimer(signal.ITIMER_REAL, 0)
 PASSTHROUGH = [[], ["/dev/null"]]
 BASE = "file_sb"
 KEEP_PER_SIG = 2          # violation records kept per signature and shard (totals are counted)
@@ -181,6 +229,15 @@ def nontrivial(path, sep="/"):
 # ------------------------------------------------------------------------------------------------
 # sandbox
 
+def _stack_depth():
+    out = []
+    f = sys._getframe()
+    while f is not None:
+        out.append(f)
+        f = f.f_back
+    return out
+
+
 class Sandbox(object):
     """<root>/work is the cwd, <root>/work/file_sb the base."""
 
@@ -197,6 +254,9 @@ class Sandbox(object):
         self.base = os.path.join(self.work, BASE)
         os.makedirs(os.path.join(self.base, "a", "a"))
         os.makedirs(os.path.join(self.base, "..."))
+        for d in (os.path.join(self.base, "a"), os.path.join(self.base, "a", "a")):
+            with open(os.path.join(d, "f"), "w") as fd:
+                fd.write("x")
         for sibling in SIBLINGS:
             os.makedirs(os.path.join(self.work, sibling, "a"))
         self.layout = dict((name, target.replace("@WORK@", self.work)) for name, target in self.layout.items())
@@ -204,6 +264,9 @@ class Sandbox(object):
             for name, target in self.layout.items():
                 os.symlink(target, os.path.join(where, name))
         os.chdir(self.work)
+        self.old_limit = sys.getrecursionlimit()
+        sys.setrecursionlimit(len(_stack_depth()) + RECURSION_LIMIT)
+        self.old_handler = signal.signal(signal.SIGALRM, _on_alarm)
         self.base_real = os.path.realpath(self.base)
         self.base_parts = self.base.split(os.sep)
         self.links = guest_links(self.layout)
@@ -211,6 +274,9 @@ class Sandbox(object):
 
     def __exit__(self, *exc):
         try:
+            signal.setitimer(signal.ITIMER_REAL, 0)
+            signal.signal(signal.SIGALRM, self.old_handler)
+            sys.setrecursionlimit(self.old_limit)
             os.chdir(self.old_cwd)
         finally:
             shutil.rmtree(self.root, ignore_errors=True)
@@ -310,7 +376,15 @@ def check_resolve(sb, fs, pt, path, tally, layout_idx):
         for follow in (True, False):
             api = "resolve_path[%s]" % ("follow" if follow else "nofollow")
             try:
-                res = fs.resolve_path(arg, follow_link=follow)
+                res = guarded(fs.resolve_path, arg, follow_link=follow)
+            except Hang:
+                tally.outcome(api, "hang")
+                tally.add(violation(
+                    "%s:hang:%s" % (api, resolve_cause(path, "host-follows-symlink")),
+                    "layout %s, passthrough %r: resolve_path(%r, follow_link=%r) did not return within %d s" % (
+                        sb.layout_name, pt, arg, follow, CALL_BUDGET_S),
+                    {"api": "resolve_path", "layout": layout_idx, "pt": pt, "path": path}))
+                continue
             except RecursionError:
                 tally.outcome(api, "refused:RecursionError")
                 continue
@@ -357,7 +431,7 @@ def check_unix(sb, path, tally, layout_idx):
     from miasm.os_dep.common import unix_to_sbpath
     api = "unix_to_sbpath"
     try:
-        res = unix_to_sbpath(path)
+        res = guarded(unix_to_sbpath, path)
     except Exception as e:
         tally.outcome(api, "refused:%s" % type(e).__name__)
         return
@@ -377,7 +451,7 @@ def check_windows(sb, path, sep, drive, tally, layout_idx):
     from miasm.os_dep.common import windows_to_sbpath
     api = "windows_to_sbpath"
     try:
-        res = windows_to_sbpath(path)
+        res = guarded(windows_to_sbpath, path)
     except Exception as e:
         tally.outcome(api, "refused:%s" % type(e).__name__)
         return
@@ -405,6 +479,10 @@ def make_fs(pt):
 # shards
 
 def _strings(kind, maxc, maxc_pt):
+    if kind[-1] == "chain":
+        if kind[0] == "windows":
+            return windows_strings(CHAIN_COMPONENTS, maxc, kind[1], kind[2])
+        return unix_strings(CHAIN_COMPONENTS, maxc)
     if kind[0] == "resolve":
         return unix_strings(COMPONENTS, maxc)
     if kind[0] == "resolve_pt":
@@ -469,6 +547,16 @@ def run(ctx):
         for sep in ("\\", "/"):
             for drive in ("", "C:"):
                 shards += [(("windows", sep, drive), li, [], min(maxc_sib, maxc if sep == "\\" else maxc_slash), maxc_pt, 0, 1)]
+    # chain layouts: lattice over CHAIN_COMPONENTS; in quick the two longest chains only get the escaping ends
+    lengths = CHAIN_LENGTHS_QUICK if ctx.quick else CHAIN_LENGTHS
+    maxc_chain, maxc_loop = (2, 1) if ctx.quick else (3, 2)
+    chain_idx = [(CHAIN_LAYOUTS[(n, end)], maxc_chain) for n in lengths for end in CHAIN_ENDS
+                 if not (ctx.quick and n > 100 and not end.startswith(("/", "..")))]
+    chain_idx += [(CHAIN_LAYOUTS[("loop", n)], maxc_loop) for n in LOOP_LENGTHS]
+    for li, mc in chain_idx:
+        shards += [(("resolve", "chain"), li, [], mc, maxc_pt, 0, 1)]
+        shards += [(("unix", "chain"), li, [], mc, maxc_pt, 0, 1)]
+        shards += [(("windows", "\\", "", "chain"), li, [], mc, maxc_pt, 0, 1)]
     res = ctx.pmap(_shard, shards)
 
     outcomes = {}
@@ -502,6 +590,10 @@ def run(ctx):
         "bounds": {"max_components": maxc, "max_components_main_lattice_with_passthrough_configured": maxc_main_pt, "components": list(COMPONENTS), "max_components_passthrough_lattice": maxc_pt,
                    "passthrough_components": list(PT_COMPONENTS), "layouts": [l[0] for l in LAYOUTS[:nlay]],
                    "sibling_layouts": [LAYOUTS[i][0] for i in SIBLING_LAYOUTS], "max_components_sibling_layouts": maxc_sib,
+                   "chain_lengths": lengths, "chain_ends": CHAIN_ENDS, "loop_lengths": LOOP_LENGTHS,
+                   "max_components_chain_layouts": maxc_chain, "max_components_loop_layouts": maxc_loop,
+                   "chain_components": list(CHAIN_COMPONENTS), "call_budget_s": CALL_BUDGET_S,
+                   "recursion_budget_frames": RECURSION_LIMIT,
                    "max_components_windows_slash_joined": maxc_slash,
                    "passthrough_sets": PASSTHROUGH, "string_types": ["str", "bytes (resolve_path only)"],
                    "windows_separators": ["\\", "/"], "windows_drive_prefix": ["", "C:"]},
